@@ -105,6 +105,11 @@ def extSig (fn : String) : List Kind :=
   else if fn == "durationSince" then [.datetime, .datetime]
   else []
 
+/-- `millisSinceMidnight` (evalers.go): Go's truncated `ms % MillisPerDay`, moved into `[0, MillisPerDay)`
+    by adding one day when it is negative (no wrap needed: the sum is below one day) -/
+def millisSinceMidnight (ms : Int) : Int :=
+  if Int.tmod ms 86400000 < 0 then Int.tmod ms 86400000 + 86400000 else Int.tmod ms 86400000
+
 /-- the body of each extension evaluator once its arguments are evaluated and converted -/
 def callExt (fn : String) (vals : List Value) : Res :=
   match vals with
@@ -128,9 +133,12 @@ def callExt (fn : String) (vals : List Value) : Res :=
     else .error .unknownFn
   | [.ip x, .ip y] => if fn == "isInRange" then .ok (.bool (y.contains x)) else .error .unknownFn
   | [.datetime t] =>
-    -- Go: `ms - ms % MillisPerDay` / `ms % MillisPerDay` with truncated `%` (C01 finding for t < 0)
-    if fn == "toDate" then .ok (.datetime (wrap (t - Int.tmod t 86400000)))
-    else if fn == "toTime" then .ok (.duration (Int.tmod t 86400000))
+    -- Go (repaired, C01 `todate-totime-negative-truncation`): `checkedSubI64(ms, millisSinceMidnight(ms))`
+    -- with errOverflow / `millisSinceMidnight(ms)`
+    if fn == "toDate" then
+      let (x, ok) := checkedSub t (millisSinceMidnight t)
+      if ok then .ok (.datetime x) else .error .overflow
+    else if fn == "toTime" then .ok (.duration (millisSinceMidnight t))
     else .error .unknownFn
   | [.duration d] =>
     if fn == "toMilliseconds" then .ok (.long d)
